@@ -222,7 +222,9 @@ void note_progress(int me, bool modifying, uintptr_t addr) {
   } else {
     // only RE-reads of a location already polled in this streak count: a long read-only scan over
     // distinct locations (rehashing, traversals) is progress, a loop over the same locations is not
-    if (addr && std::find(t->watch.begin(), t->watch.end(), addr) == t->watch.end()) { if (t->watch.size() < 4096) t->watch.push_back(addr); }
+    // (a traversal that re-reads a few fixed words - block pointer, era clock, bucket state - at every element it visits
+    //  is still making progress as long as it keeps reaching locations it has not read before: a new location restarts the count)
+    if (addr && std::find(t->watch.begin(), t->watch.end(), addr) == t->watch.end()) { if (t->watch.size() < 4096) { t->watch.push_back(addr); t->ro = 0; } else t->ro++; }
     else t->ro++;
     if (t->ro >= G_.cfg.spin_limit) t->spinning = true;  // takes effect at the next scheduling point
   }
